@@ -2,9 +2,10 @@ from vlib.runner import Obl
 OBLS = []
 INC = ['spec/urlspec.h', 'spec/scan.h', 'spec/ref_host.h', 'spec/ref_pct.h', 'model/host_ghost.h']
 U64 = 'const unsigned long'
-OBLS.append(Obl('C04.parse_ipv4.twin/b11', ['C04', 'C10', 'C02'], 'B(11)', 'c04/ipv4_twin.c', roots=['url_parse_ipv4', 'agg_parse_ipv4'],
-                stub=['agg_update_base_hostname'], specs={'agg_update_base_hostname': 'skel/agg_update_base_hostname.record.spec'},
-                bufn=11, unwind=17, defines=['STR_CAP=16', 'BUF_START=1'], includes=INC,
-                globals=[('omitted', 'const unsigned int'), ('ipv4_fast_fail', U64), ('url_default', '@default'), ('url_aggregator_default', '@default')],
-                solver='cadical', timeout=2400, object_bits=10, bound='host text <= 11 bytes',
-                note='both IPv4 parsers == the Standard\'s IPv4 parser + serializer (shared contract), so the two URL types agree'))
+for which, roots, stub in (('url', ['url_parse_ipv4'], []), ('url_aggregator', ['agg_parse_ipv4'], ['agg_update_base_hostname'])):
+    OBLS.append(Obl('C04.parse_ipv4.twin.%s/b9' % which, ['C04', 'C10', 'C02'], 'B(9)', 'c04/ipv4_twin.c', roots=roots,
+                    stub=stub, specs={'agg_update_base_hostname': 'skel/agg_update_base_hostname.record.spec'},
+                    bufn=9, unwind=17, defines=['STR_CAP=16', 'BUF_START=1', 'ONLY_URL=1' if which == 'url' else 'ONLY_AGG=1'], includes=INC,
+                    globals=[('omitted', 'const unsigned int'), ('ipv4_fast_fail', U64), ('url_default', '@default'), ('url_aggregator_default', '@default')],
+                    solver='cadical', timeout=3000, object_bits=10, tier='thorough', bound='host text <= 9 bytes',
+                    note='%s::parse_ipv4 == the Standard\'s IPv4 parser + serializer (the contract shared by both URL types)' % which))
